@@ -80,8 +80,12 @@ class RefModel:
         elif name == "transitionVar":
             TJ = self.sym("transitionJacobian")
             out = TJ.multiply_elementwise(TJ) * self.R
-        elif name == "hess_xx":      # list over i of d2F_i/dx dx
-            out = [sympy.hessian(F[i], X) for i in range(nS)]
+        elif name == "hess_xx":      # stacked over i: d2F_i/dx dx  -> (nS*nS, nS)
+            out = sympy.Matrix(nS * nS, nS, lambda r, c: sympy.diff(F[r // nS], X[r % nS], X[c]))
+        elif name == "hess_xt":      # stacked over i: d2F_i/dx dtheta -> (nS*nS, nP)
+            out = sympy.Matrix(nS * nS, nP, lambda r, c: sympy.diff(F[r // nS], X[r % nS], TH[c]))
+        elif name == "hess_tt":      # stacked over i: d2F_i/dtheta dtheta -> (nS*nP, nP)
+            out = sympy.Matrix(nS * nP, nP, lambda r, c: sympy.diff(F[r // nP], TH[r % nP], TH[c])) if nP else sympy.zeros(0, 0)
         else:
             raise KeyError(name)
         self._cache[name] = out
